@@ -8,6 +8,14 @@ COMMON_TRUST = [
 ]
 
 PROPS = {
+    'C05': dict(
+        units=['compression', 'decode', 'encode'], level='proof',
+        not_covered=[
+            'EnabledCompressionEncodings::{enable,pop,is_enabled,is_empty,into_accept_encoding_header_value} use iterator adapters Verus rejects: their contracts (A-tonic-cfg-01) are the complete Kani harnesses of the Kani lane (all slot states), linked here as callee contracts',
+            'server/client plumbing that passes the right one of the two configured sets (send vs accept) into these functions (server::Grpc, client::Grpc glue) is not yet under contract',
+            'completeness of the response-encoding picker (an offered and enabled encoding IS chosen) is not demanded by the statement and not proved (string-literal match gives arm=>equal only)',
+            'str::split / str::trim semantics are the uninterpreted comma_tokens (A-std-split-01)',
+        ]),
     'C12': dict(
         units=['reqresp'], level='proof',
         not_covered=[
@@ -25,15 +33,15 @@ PROPS = {
             'from_error / from_hyper_error / find_status_in_source_chain (dyn Error source chains) are not under contract',
         ]),
     'C01': dict(
-        units=['wire', 'encode', 'decode'], level='proof',
+        units=['wire', 'encode', 'decode', 'compression'], level='proof',
         not_covered=[
-            'gzip/deflate/zstd really are inverses and compress() uses the coder named by the encoding (flate2/zstd FFI): assumed as A-compress-01..04',
+            'gzip/deflate/zstd coders are inverses of their decoders (flate2/zstd FFI): axioms A-compress-01/04; that compress()/decompress() call the coder NAMED by the encoding and append exactly its output is proved on the real bodies (unit compression)',
             'prost encode/decode satisfy the codec contracts A-codec-01..04 (decode reads the whole payload, never Ok(None); encode appends exactly ser(item))',
             'buffer_size only affects reserve() arguments; capacity is not part of the BytesMut view (A-bytes-reserve)',
             'the composition "encoder trace then decoder trace" is stated per call (enc_step / M1,P1,N1 step clauses) plus the spec-level lemmas lemma_parse_wire and lemma_parse_append; the induction over whole poll traces is not yet mechanised',
         ]),
     'C03': dict(
-        units=['wire', 'encode', 'status', 'reqresp'], level='proof',
+        units=['wire', 'encode', 'status', 'reqresp', 'compression'], level='proof',
         not_covered=[
             'client prepare_request / server map_response glue is not yet under contract in this build (Status::into_http, Response::into_http, Request::into_http are)',
             'that compress() uses the coder named in grpc-encoding (FFI)', 'HTTP/2 serialisation of heads and trailers (hyper/h2)',
